@@ -680,3 +680,193 @@ Print Assumptions C04_constraints_permuted.
 Theorem C04_class_order : C04_class_order_statement.
 Proof. exact class_order. Qed.
 Print Assumptions C04_class_order.
+
+(* ------------------------------------------------------------------ phase 4: coverage; the refinement under "no Panic / OutOfFuel" only *)
+From RS Require Import Infer.SlabCov Infer.SlabWfd Infer.SlabRun3.
+
+(* in a tree model of the generated constraints in which every node arrow is a finite tree, every variable is *)
+Theorem C04_constraints_covered : forall jt al p g0 g, ginv g0 -> gen_nodes jt p g0 = Some g ->
+  tsat al (g_store g) -> teqs_hold al (g_eqs g) ->
+  (forall c x y, arr_of (g_arr g) c = Some (x, y) -> tfin (al x) /\ tfin (al y)) ->
+  (forall v, (v < length (g_store g0))%nat -> tfin (al v)) ->
+  forall v, (v < length (g_store g))%nat -> tfin (al v).
+Proof. exact gen_cov. Qed.
+Print Assumptions C04_constraints_covered.
+
+(* a tree model that is finite everywhere gives a finite model *)
+Theorem C04_all_finite_model : forall s eqs al, wf s -> eqs_in (length s) eqs -> tsat al s -> teqs_hold al eqs ->
+  (forall v, (v < length s)%nat -> tfin (al v)) -> finite_model s eqs.
+Proof. exact all_fin_model. Qed.
+Print Assumptions C04_all_finite_model.
+
+(* a successful Type::finalize, anywhere in a sequence of finalisations started in c0, means that the class is well
+   founded in c0 (no occurs-check reasoning, no models) *)
+Theorem C04_slab_finalize_wfd : forall c0 c e, FinInv c0 c -> (e < length (c_uf c))%nat ->
+  match finalize c e with
+  | Ok (c', Some t) => FinInv c0 c' /\ length (c_uf c') = length (c_uf c) /\ wfd c0 (rep (c_uf c0) e)
+  | _ => True
+  end.
+Proof. exact finalize_wfd. Qed.
+Print Assumptions C04_slab_finalize_wfd.
+
+(* coverage: if the construction succeeds and the harness finalises every arrow, the reference accepts - so
+   reference = OccursCheck implies that the slab finalisation hits the occurs check (or Panic / OutOfFuel) *)
+Theorem C04_slab_finish_covers : forall (fuel : nat) (jt : jet_table) (program : bool) (p : prog) (root : nat) (g : gstate)
+    rb re c ar fmode canon tau',
+  gen jt p = Some g -> root_tmpl g (if program then Some root else None) = Some (rb, re) ->
+  r_construct fuel jt program p root = Ok (c, ar) ->
+  r_finish fmode p canon root c ar = Ok tau' ->
+  (forall i, (i < length ar)%nat -> In i canon) ->
+  exists tau, infer jt (if program then Some root else None) p = Ok tau.
+Proof. exact finish_covers. Qed.
+Print Assumptions C04_slab_finish_covers.
+
+(* C04_slab_refines_reference_statement for EVERY input under the only hypothesis that the slab run does not end in
+   Panic / OutOfFuel *)
+Theorem C04_slab_refines_reference_nopanic : forall (fmode : nat) (program : bool) (order : list nat)
+    (jets : list (N * N * list N * list N)) (p : prog),
+  let a := run_infer program order jets p in
+  let b := run_rinfer fmode program order jets p in
+  (forall k, b <> [9; k]%N) -> b <> [8]%N -> strip99 b = a.
+Proof. exact run_refines_nopanic. Qed.
+Print Assumptions C04_slab_refines_reference_nopanic.
+
+(* ------------------------------------------------------------------ phase 4: totality of the finalisation stage *)
+From RS Require Import Infer.SlabTotal Infer.SlabRun4.
+
+(* Incomplete::occurs_check: the fuel 4 |slab| + 4 of the model suffices and nothing can panic *)
+Theorem C04_slab_occurs_check_total : forall c b, cwf c -> (b < length (c_slab c))%nat ->
+  exists c' cyc, occurs_check c b = Ok (c', cyc).
+Proof. exact occurs_check_total. Qed.
+Print Assumptions C04_slab_occurs_check_total.
+
+(* ... and it is complete: when it reports no cycle, everything below the bound is well founded, with height <= |slab| *)
+Theorem C04_slab_occurs_loop_complete : forall c0 b0, cwf c0 -> forall fuel c st ip comp c',
+  keeps_part c0 c -> c_slab c = c_slab c0 ->
+  NoDup (comp ++ dones st) -> (forall d, In d (dones st) -> mem d ip = true) ->
+  (forall d, In d (comp ++ dones st) -> (d < length (c_slab c0))%nat) ->
+  (forall d, In d comp -> wfbh c0 (length comp) d) ->
+  pending c0 comp st ->
+  (In b0 comp \/ exists o, In o st /\ oid o = b0) ->
+  (forall o, In o st -> (oid o < length (c_slab c0))%nat) ->
+  occurs_loop fuel c st ip comp = Ok (c', false) ->
+  exists h, (h <= length (c_slab c0))%nat /\ wfbh c0 h b0.
+Proof. exact occurs_loop_complete. Qed.
+Print Assumptions C04_slab_occurs_loop_complete.
+
+(* so the completion loop, run with fuel S |slab| after a negative occurs check, terminates: Type::finalize is total *)
+Theorem C04_slab_finalize_total : forall c e, cwf c -> (e < length (c_uf c))%nat -> exists c' o, finalize c e = Ok (c', o).
+Proof. exact finalize_total. Qed.
+Print Assumptions C04_slab_finalize_total.
+
+Theorem C04_slab_finish_total : forall fmode p canon root c ar, cwf c -> arr_in (length (c_uf c)) ar ->
+  terminated (r_finish fmode p canon root c ar).
+Proof. exact r_finish_total. Qed.
+Print Assumptions C04_slab_finish_total.
+
+(* the refinement, for EVERY input, under the only hypothesis that the CONSTRUCTION stage of the slab run (arrow
+   constructors and set_arrow_to_program: unify / bind with the fuel model_fuel) does not end in Panic / OutOfFuel *)
+Theorem C04_slab_refines_reference_construct : forall (fmode : nat) (program : bool) (order : list nat)
+    (jets : list (N * N * list N * list N)) (p : prog),
+  terminated (run_construct program order jets p) ->
+  strip99 (run_rinfer fmode program order jets p) = run_infer program order jets p.
+Proof. exact run_refines_construct. Qed.
+Print Assumptions C04_slab_refines_reference_construct.
+
+(* ------------------------------------------------------------------ phase 4: totality of bind / unify *)
+From RS Require Import Infer.SlabNoP10 Infer.SlabTotalBind.
+
+(* bind against a complete type of depth < fuel: Ok or Err, never Panic / OutOfFuel *)
+Theorem C04_slab_bind_complete_total : forall fuel c b t eb, cwf c -> holds_ref c eb b -> (tdepth t < fuel)%nat ->
+  oe (bind fuel c b (RComplete t)).
+Proof. exact bind_complete_total. Qed.
+Print Assumptions C04_slab_bind_complete_total.
+
+(* unify with the fuel `pot c` = representatives + deepest complete type + incomplete sum/product bounds, on a state
+   with fewer than 2^64 elements whose ranks satisfy RKI (max rank + representatives <= elements): the result is Ok or
+   Err, or the panic 10 of reassign_non_complete; never OutOfFuel, never the rank assertion (Panic 3), no other panic;
+   the potential does not increase and RKI is kept *)
+Theorem C04_slab_unify_total : forall (f : nat) c x y, TI c -> (x < length (c_uf c))%nat -> (y < length (c_uf c))%nat ->
+  (pot c <= f)%nat -> tb_post c 0 (ctx_unify f c x y).
+Proof. exact TU_all. Qed.
+Print Assumptions C04_slab_unify_total.
+
+Theorem C04_slab_bind_total : forall (f : nat) c b new eb, TI c -> holds_ref c eb b -> bound_in (length (c_uf c)) new ->
+  (cdb new <= mcd c)%nat -> fuel_ok f c new -> tb_post c (if pairb new then 1 else 0)%nat (bind f c b new).
+Proof. exact TB_all. Qed.
+Print Assumptions C04_slab_bind_total.
+
+(* ------------------------------------------------------------------ phase 4: the construction stage is total up to one assertion *)
+From RS Require Import Infer.SlabTotalNodes Infer.SlabRun5.
+
+(* every arrow constructor keeps the invariant Inv3 (well formed, rank invariant, potential <= P, elements <= N) with the
+   potential growing by at most 12 and the elements by at most 6, and returns Ok, Err or the panic 10 of
+   reassign_non_complete; in particular the `.unwrap()` of Arrow::for_case (Panic 20) cannot fail *)
+Theorem C04_slab_node_total : forall (L F : nat) (jt : jet_table), (33 <= L)%nat ->
+  (forall fam id gs gt, jet_lookup jt fam id = Some (gs, gt) -> (tdepth (gty_ty gs) <= L)%nat /\ (tdepth (gty_ty gt) <= L)%nat) ->
+  forall nd c s eqs em ar P N, Sim c s eqs em -> Inv3 L c P N -> arr_in (length (c_uf c)) ar ->
+  (P + 12 <= F)%nat -> (N.of_nat (N + 6) <= usize_max)%N ->
+  okr (r_node F jt c ar nd) (fun '(c', _) => Inv3 L c' (P + 12) (N + 6)).
+Proof. exact node_total. Qed.
+Print Assumptions C04_slab_node_total.
+
+(* with the fuel RunSlab.model_fuel and fewer than 2^32 nodes the whole construction stage returns Ok, Err or Panic 10:
+   no OutOfFuel in bind / unify, no rank assertion (Panic 3), no other panic *)
+Theorem C04_slab_construct_total : forall jt program p root g, gen jt p = Some g -> (N.of_nat (length p) < 2 ^ 32)%N ->
+  okr (r_construct (model_fuel jt p) jt program p root) (fun _ => True).
+Proof. exact construct_total. Qed.
+Print Assumptions C04_slab_construct_total.
+
+(* C04_slab_refines_reference_statement with the size bound: for every input of fewer than 2^32 nodes the slab model
+   prints what the reference prints, unless its construction stage hits the assertion of reassign_non_complete (Panic 10:
+   "tried to modify finalized type").  The unbounded statement above cannot be proved as it stands: the rank assertion of
+   UbElement::unify (rank <> usize::MAX) is only unreachable below 2^64 elements. *)
+Theorem C04_slab_refines_reference_bounded : forall (fmode : nat) (program : bool) (order : list nat)
+    (jets : list (N * N * list N * list N)) (p : prog),
+  (N.of_nat (length p) < 2 ^ 32)%N ->
+  run_construct program order jets p <> Panic 10%N ->
+  strip99 (run_rinfer fmode program order jets p) = run_infer program order jets p.
+Proof. exact run_refines_bounded. Qed.
+Print Assumptions C04_slab_refines_reference_bounded.
+
+(* ------------------------------------------------------------------ phase 4: the assertion of reassign_non_complete; the refinement theorem *)
+From RS Require Import Infer.SlabNoP10.
+
+(* bind / unify only touch bounds of classes whose value is a subtree of the value of their arguments, in every tree
+   model of the result (M: any set of such models) *)
+Theorem C04_slab_unify_frame : forall (f : nat) c x y c' (M : (nat -> itree) -> Prop), cwf c ->
+  (x < length (c_uf c))%nat -> (y < length (c_uf c))%nat -> ctx_unify f c x y = Ok c' -> (forall be, M be -> tsat_r be c') ->
+  frame M c c' [x; y].
+Proof. exact FLU_all. Qed.
+Print Assumptions C04_slab_unify_frame.
+
+(* hence the bound a Sum/Sum | Product/Product arm is working on cannot have been completed by a nested call when both
+   children are complete: the value of its class would be a finite tree and a proper subtree of itself.  (tb_post and okr
+   in the totality theorems above now say `Panic _ => False`: the earlier "or Panic 10" alternative is excluded.) *)
+Theorem C04_slab_no_panic10 : forall f c b0 eb s x1 x2 y1 y2 c1 c2 ub t d1 d2, cwf c -> holds_ref c eb b0 ->
+  slab_get c b0 = rpair s x1 x2 -> (y1 < length (c_uf c))%nat -> (y2 < length (c_uf c))%nat ->
+  ctx_unify f c x1 y1 = Ok c1 -> ctx_unify f c1 x2 y2 = Ok c2 -> same_part (c_uf c2) ub ->
+  (forall be, tsat_r be (mk_ctx (c_slab c2) ub) -> teq (be y1) (tof d1) /\ teq (be y2) (tof d2)) ->
+  slab_get c2 b0 = RComplete t -> False.
+Proof. exact no_panic10. Qed.
+Print Assumptions C04_slab_no_panic10.
+
+(* the construction stage of a table of fewer than 2^32 nodes, with the fuel RunSlab.model_fuel, returns Ok or Err *)
+Theorem C04_slab_construct_terminates : forall jt program p root g, gen jt p = Some g -> (N.of_nat (length p) < 2 ^ 32)%N ->
+  terminated (r_construct (model_fuel jt p) jt program p root).
+Proof. exact construct_terminates. Qed.
+Print Assumptions C04_slab_construct_terminates.
+
+(* THE REFINEMENT THEOREM: C04_slab_refines_reference_statement with the size bound as its only hypothesis.  For every
+   finalisation mode, program flag, construction order (valid or not), jet list and node table of fewer than 2^32 nodes,
+   the model of the Rust union-bound / slab algorithm prints exactly what the reference inference prints: the same shape
+   error, the same Error::Bind with the same stage, Error::OccursCheck, or the same arrow for every node.
+   The bound is needed because the rank assertion of UbElement::unify (`assert_ne!(rank, usize::MAX)`, Panic 3 of the
+   model) is only unreachable while the context holds fewer than 2^64 elements; the unbounded
+   C04_slab_refines_reference_statement is therefore kept as a Definition. *)
+Theorem C04_slab_refines_reference : forall (fmode : nat) (program : bool) (order : list nat)
+    (jets : list (N * N * list N * list N)) (p : prog),
+  (N.of_nat (length p) < 2 ^ 32)%N ->
+  strip99 (run_rinfer fmode program order jets p) = run_infer program order jets p.
+Proof. exact run_refines_final. Qed.
+Print Assumptions C04_slab_refines_reference.
